@@ -300,6 +300,41 @@ def run(chk):
             chk.run("C12.R7", "jinns.loss._DynamicLossAbstract:_decorator_heteregeneous_params/_eval_heterogeneous_parameters",
                     cfg, go, construct=f"heterogeneity[{eq_type}]")
 
+    # the losses evaluate their dynamic losses THROUGH the heterogeneity wrapper (`evaluate`, not the bare `equation`): single and
+    # system losses, with and without a parameter batch on the heterogeneous key
+    for eq_type in ('ODE', 'statio_PDE', 'nonstatio_PDE'):
+        for system in (False, True):
+            for pk in ((), ('nu',)):
+                cfg = {"loss": ("system " if system else "") + eq_type, "heterogeneity": "nu", "batched": list(pk)}
+
+                def go(eq_type=eq_type, system=system, pk=pk):
+                    seen = []
+
+                    def het_nu(*a):
+                        return to_at(Poly.atom(('F', 'het_nu', None, frozenset())))
+
+                    def equation(*a):
+                        eqp = a[-1].fields['eq_params']
+                        seen.append(to_at(eqp['nu']).data.flat[0])
+                        return AT((1,), np.array([Poly.const(0)], dtype=object))
+                    dyn = E.user_dynamic_loss(eq_type, 1, heterogeneity={'nu': het_nu}, equation=equation)
+                    if system:
+                        SL = SystemLoss(E, eq_type, 'PINN', terms=('dyn',), eq_keys=EQ_KEYS, equations=('e1',), dyn={'e1': dyn})
+                        SL.evaluate(pk)
+                    else:
+                        S = SingleLoss(E, eq_type, 'PINN', d=2, m_u=1, terms=('dyn',), eq_keys=EQ_KEYS, dyn=dyn)
+                        S.evaluate(param_keys=pk)
+                    if not seen:
+                        raise Violation("dynamic loss", "the equation is never called", "called once per evaluation")
+                    for v in seen:
+                        atm = v.single_atom()
+                        if not (atm and atm[0] == 'F' and atm[1] == 'het_nu'):
+                            raise Violation("nu", f"the equation of the loss receives {v} for the heterogeneous parameter nu",
+                                            "het_nu(point): the loss goes through the heterogeneity wrapper")
+                    return "the equation receives the heterogeneous value"
+                chk.run("C12.R7", (SSITE if system else SITE)[eq_type] + " -> dynamic loss", cfg, go,
+                        construct=f"heterogeneity through the loss[{'system ' if system else ''}{eq_type}]")
+
     run_hyper_input(chk, E)
     run_routing_with_batch(chk, E)
 
